@@ -264,6 +264,7 @@ type callCtx struct {
 	RealWrite int    // non-dry-run requests by the code under test
 	Changed   int
 	Creates   int
+	DryKeys   map[verifsim.Key]bool // package objects for which a dry-run write was issued so far
 }
 
 func newWorld(fl flavour, fail func(string, ...any)) *world {
@@ -398,6 +399,10 @@ func (w *world) monitor(v *verifsim.View, wr *verifsim.Write) {
 		return // the reconciler's own bookkeeping on the revision (finalizer, labels, status)
 	}
 	if wr.DryRun {
+		if c.DryKeys == nil {
+			c.DryKeys = map[verifsim.Key]bool{}
+		}
+		c.DryKeys[wr.Key] = true
 		return
 	}
 	c.RealWrite++
@@ -666,6 +671,11 @@ func (sc scenario) setup(fail func(string, ...any)) (*world, model) {
 
 // establish runs Establish through the given run and returns its outcome.
 func (w *world) establish(run *verifsim.Run, rev string, objs []objSpec, control bool, limit int, mustFail string) ([]xpv1.TypedReference, error, *callCtx) {
+	return w.establishWith(run.Client(), rev, objs, control, limit, mustFail)
+}
+
+// establishWith is establish with the client the establisher talks through.
+func (w *world) establishWith(c client.Client, rev string, objs []objSpec, control bool, limit int, mustFail string) ([]xpv1.TypedReference, error, *callCtx) {
 	parent := w.getRevision(rev)
 	built := make([]runtime.Object, len(objs))
 	for i, o := range objs {
@@ -674,7 +684,7 @@ func (w *world) establish(run *verifsim.Run, rev string, objs []objSpec, control
 	pkg := w.pkgs[parent.GetLabels()[parentLabel]]
 	w.cur = &callCtx{What: "establish", Rev: w.revs[rev], Pkg: pkg, Control: control, MustFail: mustFail}
 	defer func() { w.cur = nil }()
-	refs, err := revision.NewAPIEstablisher(run.Client(), ns, limit).Establish(context.Background(), built, parent, control)
+	refs, err := revision.NewAPIEstablisher(c, ns, limit).Establish(context.Background(), built, parent, control)
 	return refs, err, w.cur
 }
 
